@@ -192,6 +192,8 @@ def transl2(x, y=None):
     """
 
     if np.isscalar(x):
+        if y is None:
+            raise ValueError('bad argument: y is missing')
         T = np.identity(3)
         T[:2, 2] = [x, y]
         return T
